@@ -90,7 +90,9 @@ func (s *sink) since(m int) []*rec {
 	return append([]*rec(nil), s.recs[m:]...)
 }
 
-var pool = []string{"a", "b", "dir/c", "", "_internal/x"}
+// (names are whatever a client sends: control characters, DEL, code points outside the BMP, path-like aliases of
+// other names; a record still is one line of JSON naming exactly that name)
+var pool = []string{"a", "b", "dir/c", "", "_internal/x", "dir/../a", "dir//c", "bell\a\x01", "del\x7f\v", "tag\U000e0001x", "quote\"back\\slash", "uni\u2028sep"}
 var rulePatterns = []string{"a", "b", "*", "dir/*", "zzz"}
 var actions = []string{"get", "info", "put", "activate", "delete"}
 
